@@ -92,6 +92,18 @@ class Svc(Service):
         CAP['args'] = (a,)
         return Ignored('debug', a)
 
+    @rpc(_body_style='bare')
+    def ign_empty(ctx):
+        # the empty body style: nothing comes in, nothing is declared to go out
+        CAP['args'] = ()
+        return Ignored('debug', 7)
+
+    @rpc(Integer, Unicode, _returns=Integer)
+    def echo(ctx, echo, s):
+        # an argument that is called like the method
+        CAP['args'] = (echo, s)
+        return echo
+
     @rpc(Integer, _returns=[Point, Point])
     def same2(ctx, a):
         CAP['args'] = (a,)
@@ -172,7 +184,8 @@ def _same_point(sx, p, q):
 FUNCS = ['spyne.server.null._FunctionCall.__call__', 'spyne.server.null._cb_sync',
          'spyne.application.Application.process_request', 'spyne.server._base.ServerBase.get_out_object',
          'spyne.protocol.dictdoc.hier.HierDictDocument.serialize', 'spyne.protocol.dictdoc.hier.HierDictDocument.deserialize']
-METHODS = ['show', 'first', 'two', 'two-ignored', 'nothing', 'noargs', 'outbare', 'bare', 'gen', 'boom', 'ign', 'ign_outbare', 'div', 'same2', 'arr2']
+METHODS = ['show', 'first', 'two', 'two-ignored', 'nothing', 'noargs', 'outbare', 'bare', 'gen', 'boom', 'ign', 'ign_outbare', 'div', 'same2', 'arr2',
+           'ign_empty', 'echo']
 
 
 @harness('C18', params=METHODS, functions=FUNCS,
@@ -197,8 +210,10 @@ def null_vs_wire(sx, m):
         pos, kw, body = (a, b), dict(a=a, b=b), {'a': a, 'b': b}
     elif m in ('two', 'two-ignored', 'nothing', 'outbare', 'gen', 'ign', 'ign_outbare', 'same2', 'arr2'):
         pos, kw, body = (a,), dict(a=a), {'a': a}
-    elif m == 'noargs':
+    elif m in ('noargs', 'ign_empty'):
         pos, kw, body = (), {}, {}
+    elif m == 'echo':
+        pos, kw, body = (a, s), dict(echo=a, s=s), {'echo': a, 's': s}
     elif m == 'bare':
         pos, kw, body = (a, b, s), dict(x=a, y=b, label=s), {'x': a, 'y': b, 'label': s}
     else:
@@ -213,9 +228,9 @@ def null_vs_wire(sx, m):
         ok += [sx.eq(nres[1], wres[1]), sx.eq(nres[2], wres[2])]
         return sx.And(*ok)
     direct, doc = nres[1], wres[1]
-    if m in ('ign', 'two-ignored', 'ign_outbare'):
+    if m in ('ign', 'two-ignored', 'ign_outbare', 'ign_empty'):
         # delivered to the direct caller, sent as empty over the wire
-        ok.append(isinstance(direct, Ignored) and sx.eq(direct.args[1], a))
+        ok.append(isinstance(direct, Ignored) and sx.eq(direct.args[1], 7 if m == 'ign_empty' else a))
         ok.append(doc is None or doc == {} or doc == [] or
                   (isinstance(doc, dict) and all(v is None for v in doc.values())))
     elif m == 'nothing':
